@@ -38,7 +38,7 @@ Lib ==
      \* c2: default-flagged slot repeated in a loop, slot nested in a slot default
      [data |-> << Data("y", "const", "c2y", "", ""), Data("x", "kwarg", "", "x", "") >>,
       tpl  |-> << For("i", "xs", << Slot("a", TRUE, FALSE, << <<"k", V("i")>> >>,
-                                         << T("L4"), Slot("b", FALSE, FALSE, <<>>, << T("L5") >>) >>) >>),
+                                         << T("L4"), Var("i"), Slot("b", FALSE, FALSE, <<>>, << T("L5") >>) >>) >>),
                   Var("y"), Var("x"), Isf("default"), Isf("b"),
                   \* the same slot name again WITHOUT the default flag (flags are per tag)
                   Slot("a", FALSE, FALSE, <<>>, << T("L13") >>) >>],
@@ -97,6 +97,18 @@ Lib ==
      \* no Component.id echo): every root element of its children is a root of the wrapper too
      [data |-> <<>>,
       tpl  |-> << Comp(9, <<>>, FALSE, "none", <<>>), For("i", "xs", << Comp(6, <<>>, FALSE, "none", <<>>) >>) >>]
+     ,
+     \* ---- c15 / c16: DEFERRED default alias.  c15 renders a slot in a loop over its OWN list (so it also loops in
+     \* isolated mode); the default content reads the loop variable.  c16 - a component template, so that everything
+     \* below it is rendered later by the queue - fills that slot with content that hands {{ default }} on into the
+     \* body of another component: the default content is rendered after the slot's loop has moved on and must
+     \* still see the iteration it belongs to
+     [data |-> << Data("ys", "clist", "q", "", "") >>,
+      tpl  |-> << For("i", "ys", << Slot("a", FALSE, FALSE, <<>>, << T("L14"), Var("i") >>) >>) >>]
+     ,
+     [data |-> <<>>,
+      tpl  |-> << Comp(15, <<>>, FALSE, "fills",
+                       << Fill(C("a"), "", "df", << Comp(5, <<>>, FALSE, "impl", << [t |-> "defref", x |-> "df"] >>) >>) >>) >>]
   >>
 
 Ctx == << <<"x", Str("px")>>, <<"y", Str("py")>>, <<"xs", [k |-> "l", v |-> <<"i1", "i2">>]>>,
@@ -105,7 +117,7 @@ Ctx == << <<"x", Str("px")>>, <<"y", Str("py")>>, <<"xs", [k |-> "l", v |-> <<"i
 
 \* which components the page may use
 CompSet == CASE Alphabet = "provide" -> {2, 4, 13} [] Alphabet = "elems" -> {6, 7, 8, 9, 10, 12, 14}
-             [] Alphabet = "scope" -> {1, 2, 3, 11} [] OTHER -> {1, 2, 3, 5}
+             [] Alphabet = "scope" -> {1, 2, 3, 11} [] OTHER -> {1, 2, 3, 5, 16}
 
 \* ---- page construction ----------------------------------------------------
 VARIABLES stack, n
